@@ -202,4 +202,26 @@ theorem parse_of_toks (hf : FloatOK) (l : Layout) (t : Tree) (h : wfPairs t = tr
     rw [he, parseDict]
     simp only [hn, List.nil_append]
 
+mutual
+theorem enc_val (v : Val) (h : wfVal v = true) : encodableVal v = true := by
+  match v with
+  | .dict items => rw [wfVal] at h; rw [encodableVal]; exact enc_pairs items h
+  | .list elems => rw [wfVal] at h; rw [encodableVal]; exact enc_elems elems h
+  | .sc s =>
+    rw [wfVal] at h
+    cases s <;> simp_all [encodableVal, wfScalar]
+theorem enc_pairs (ps : List (BL × Val)) (h : wfPairs ps = true) : encodablePairs ps = true := by
+  match ps with
+  | [] => rfl
+  | (k, v) :: t =>
+    rw [wfPairs] at h; simp only [Bool.and_eq_true] at h
+    rw [encodablePairs]; simp [enc_val v h.1.2, enc_pairs t h.2]
+theorem enc_elems (es : List Val) (h : wfElems es = true) : encodableElems es = true := by
+  match es with
+  | [] => rfl
+  | v :: t =>
+    rw [wfElems] at h; simp only [Bool.and_eq_true] at h
+    rw [encodableElems]; simp [enc_val v h.1, enc_elems t h.2]
+end
+
 end PsdVerif.EngineData
